@@ -11,7 +11,7 @@ open AL AL.Ast AL.Sema AL.RuleExpr
 def stepM (cx : Cx) (n : Step) : AL.Visit.StepM :=
   { id := n.id.map (·.value),
     idExpr := match n.id with | some i => AL.Rules.containsExpr i | none => false,
-    outputs := actionOutputsTy (stepExec cx n.exec).2,
+    outputs := actionOutputsTy cx.proj.actionOutputs (stepExec cx n.exec).2,
     probes := [] }
 
 /-- a step's own strings are checked under the scope BEFORE the step; afterwards `steps` is `Visit.addStep` of it, and
